@@ -226,7 +226,18 @@ def rule_opt_in(ctx: Ctx) -> None:
             and isinstance(a1, ast.Constant) and a1.value is False
         ctx.check(ok, "opt-in", fi or m.relpath, c, "only the tunnel overlay disables anonymity, for its own prefix",
                   "anonymity is switched off for a prefix other than the tunnel overlay's own")
-    ctx.floor("opt-in", n, 2)
+    ctx.floor("opt-in", n, 1)
+    # the anonymity table of an endpoint is never written from outside the TunnelEndpoint (e.g. `self.endpoint.settings = {...}`)
+    for m in repo.modules.values():
+        for node in ast.walk(m.tree):
+            if isinstance(node, ast.Attribute) and node.attr == "settings" and isinstance(node.value, ast.Attribute) and node.value.attr == "endpoint":
+                p_ = getattr(node, "_parent", None)
+                write = isinstance(node.ctx, (ast.Store, ast.Del)) or (isinstance(p_, ast.Subscript) and isinstance(p_.ctx, (ast.Store, ast.Del))) or \
+                    (isinstance(p_, ast.Attribute) and p_.attr in ("pop", "clear", "update", "setdefault", "popitem") and isinstance(getattr(p_, "_parent", None), ast.Call))
+                if write:
+                    f2 = repo.function_of(node)
+                    ctx.check(False, "opt-in", f2 or m.relpath, enclosing_stmt(node), "endpoint.settings is only written by set_anonymity",
+                              "the anonymity table of the tunnel endpoint is overwritten from outside set_anonymity: anonymity requests registered earlier are lost and those overlays send raw")
     # settings dict written only by set_anonymity
     te = repo.cls("TunnelEndpoint", EP)
     for fi in te.methods.values():
